@@ -223,6 +223,13 @@ func hasAbsoluteRoutes(root *expr.RootExpr) bool {
 					break
 				}
 			}
+			// A service path starting with "//" makes the routes of the
+			// service absolute as well (see HTTPServiceExpr.FullPaths).
+			for _, sp := range res.Paths {
+				if strings.HasPrefix(sp, "//") {
+					hasAbsoluteRoutes = true
+				}
+			}
 			if hasAbsoluteRoutes {
 				break
 			}
